@@ -112,11 +112,13 @@ def main():
             sys.stderr.write("LINK FAILED: %s\n%s\n" % (" ".join(link), r.stdout[-6000:]))
             return 2
         open(os.path.join(out, ".ok"), "w").write("%.1f s\n" % (time.time() - t0))
-        # garbage-collect older builds of the same engine/variant (keep the 2 most recent)
+        # garbage-collect older builds of the same engine/variant: keep the 4 most recent, and never remove one used in the last
+        # 45 minutes (another check, e.g. one judging a seeded change on a scratch worktree, may still be running from it)
         sib = sorted([d for d in os.listdir(BUILD) if d.startswith("%s-%s-" % (engine, variant))],
                      key=lambda d: os.path.getmtime(os.path.join(BUILD, d)), reverse=True)
-        for d in sib[2:]:
-            shutil.rmtree(os.path.join(BUILD, d), ignore_errors=True)
+        for d in sib[4:]:
+            if time.time() - os.path.getmtime(os.path.join(BUILD, d)) > 45 * 60:
+                shutil.rmtree(os.path.join(BUILD, d), ignore_errors=True)
         print(out)
         return 0
     finally:
